@@ -75,7 +75,14 @@ def gen_angle_comp(rng: random.Random) -> float:
     return v if 0.0 <= v < 360.0 else 0.0
 
 
+# words the KeyValues2 text form uses itself: as VALUES they are ordinary strings
+KV2_WORDS = ('element', 'element_array', 'string', 'string_array', 'int', 'float', 'bool', 'binary', 'time', 'color', 'vector2', 'vector3',
+             'vector4', 'qangle', 'quaternion', 'matrix', 'elementid', 'id', 'name', 'true', 'false', 'Element', 'ELEMENT', '', '[', ']', '{', ',')
+
+
 def gen_text(rng: random.Random, max_len: int, unicode: bool, nul: bool, hostile: float) -> str:
+    if rng.random() < 0.08:
+        return rng.choice(KV2_WORDS)
     s = rand_text(rng, max_len, ascii_only=not unicode, hostile=hostile)
     if not nul:
         s = s.replace('\x00', '0')
